@@ -47,7 +47,7 @@ Fixpoint compile (h : hpat) : ppat :=
   | HKeyword n => PMatchClass keyword_class_path [PMatchValue (VEConst (LStr n))] [] []
   end.
 
-(* the user errors of compile_pattern: `p :as _`, (| ...) with fewer than two alternatives,
+(* the user errors of compile_pattern: `p :as n` for every n that mangles to "_", (| ...) with fewer than two alternatives,
    (. ...) without an attribute -- raised wherever they occur in the pattern *)
 Fixpoint accepted (h : hpat) : bool :=
   match h with
@@ -57,7 +57,7 @@ Fixpoint accepted (h : hpat) : bool :=
   | HSeq ps => forallb accepted ps
   | HMap _ ps _ => forallb accepted ps
   | HClass _ ps _ kps => forallb accepted ps && forallb accepted kps
-  | HAs p n => negb (String.eqb n as_forbidden_name) && accepted p
+  | HAs p n => negb (String.eqb (mangle n) as_forbidden_mangled) && accepted p
   end.
 
 (* compile_pattern as a partial function: None = HySyntaxError *)
